@@ -214,6 +214,12 @@ def check_c11(out, tier):
         out.violation("L1.%s" % inv, {"model": "MC_SchemaEquiv"}, r["out"][-1500:])
     k = pipeline.SIZES[tier]
     judge_docs(out, c11_cases(rnd, 300 * k, "c11g"), ["C11"], mine)
+    # shape-map shapes that the threshold empties, kept (remove_empty_shapes off) or removed: an empty shape is a shape too
+    sm = [gen.fan_case(rnd, "c11f%d" % i) for i in range(30 * k)] + [gen.chain_case(rnd, "c11k%d" % i) for i in range(20 * k)]
+    for c in sm:
+        c["cfg"]["removeEmpty"] = rnd.random() < .5
+        c["cfg"]["disableOr"], c["cfg"]["redundantOr"] = True, False
+    judge_docs(out, sm, ["C11"], mine, label="shapes emptied by the threshold")
     pins = []
     for p in common.load_pinned("C11"):
         if "case" in p:
